@@ -297,7 +297,27 @@ func c04R2(c *Ctx) {
 		c.Undecided(R, tn+"|atomic-claim", TC.Pos(), fmt.Sprintf("TryCommit does not use exactly one sync.Map.LoadOrStore (found %d; mutex present: %v): the claim's atomicity has to be re-confirmed", len(los), hasLock))
 	} else {
 		lo := los[0]
-		ok := len(mapCalls) == 1
+		// besides the one LoadOrStore only a Load of the same key may precede it as a fast path: with an append-only claim
+		// map (checked above) a hit returns exactly what LoadOrStore would — the stored channel and committed == false
+		ok := true
+		var hitT []Edge
+		hitVals := map[ssa.Value]bool{}
+		for _, mc := range mapCalls {
+			if mc == lo {
+				continue
+			}
+			if CalleeName(mc) != "(*sync.Map).Load" || !c01SameStrip(mc.Common().Args[1], lo.Common().Args[1]) {
+				ok = false
+				continue
+			}
+			if hv := ResultOf(mc, 1); hv != nil {
+				t, _ := BoolTests(TC, Aliases(hv))
+				hitT = append(hitT, t...)
+			}
+			if v0 := ResultOf(mc, 0); v0 != nil {
+				hitVals[v0] = true
+			}
+		}
 		loadedV := ResultOf(lo, 1)
 		var loadedT, loadedF []Edge
 		if loadedV != nil {
@@ -317,6 +337,9 @@ func c04R2(c *Ctx) {
 				if !boolConst(k) && len(loadedT) > 0 && AtomMustPass(a, newCut().Edges(loadedT...)) {
 					continue
 				}
+				if !boolConst(k) && len(hitT) > 0 && AtomMustPass(a, newCut().Edges(hitT...)) {
+					continue // fast path: already claimed
+				}
 			}
 			ok = false
 		}
@@ -330,6 +353,9 @@ func c04R2(c *Ctx) {
 				return isEx && ex.Tuple == lo.Value() && ex.Index == 0
 			}) {
 				continue
+			}
+			if len(hitT) > 0 && AtomMustPass(a, newCut().Edges(hitT...)) && c01Slice(a.Val, func(x ssa.Value) bool { return hitVals[x] }) {
+				continue // fast path: the channel found by Load
 			}
 			// the channel offered to LoadOrStore is the stored one exactly when nothing was loaded
 			if strip(a.Val) == offered && len(loadedF) > 0 && AtomMustPass(a, newCut().Edges(loadedF...)) {
@@ -889,6 +915,43 @@ func c04Positive(v ssa.Value, bind map[*ssa.Parameter]ssa.Value, depth int, stri
 				continue
 			}
 		}
+		// a field read returned under a positive test of that same field (EffectiveConcurrency())
+		if ap, isPath := c01ValuePath(av); isPath && len(ap.Vars) > 0 && strict {
+			pos := newCut()
+			for _, i := range Ifs(h) {
+				cond, t, f := ifEdges(i)
+				bo, isBo := cond.(*ssa.BinOp)
+				if !isBo {
+					continue
+				}
+				xp, okX := c01ValuePath(strip(bo.X))
+				if !okX || xp.Base != ap.Base || len(xp.Vars) != len(ap.Vars) || xp.last() != ap.last() {
+					continue
+				}
+				k, isK := constInt(bo.Y)
+				if !isK {
+					continue
+				}
+				switch {
+				case bo.Op == token.LEQ && k == 0, bo.Op == token.LSS && k == 1:
+					pos.Edges(f)
+				case bo.Op == token.GTR && k == 0, bo.Op == token.GEQ && k == 1:
+					pos.Edges(t)
+				}
+			}
+			// the field must not be written in the helper
+			written := false
+			AllInstrs(h, func(in ssa.Instruction) {
+				if st, isSt := in.(*ssa.Store); isSt {
+					if sp, okS := c01AddrPath(st.Addr); okS && sp.last() == ap.last() {
+						written = true
+					}
+				}
+			})
+			if !written && len(pos.edges) > 0 && AtomMustPass(a, pos) {
+				continue
+			}
+		}
 		if !c04Positive(av, hb, depth+1, strict) {
 			return false
 		}
@@ -1337,9 +1400,10 @@ func c04R4(c *Ctx) {
 			if e := ErrOf(fs[0]); e != nil && len(closes) > 0 {
 				nilE, _, _ := NilTests(F, Aliases(e))
 				okClose = len(nilE) > 0
+				rcNil, _, _ := NilTests(F, Aliases(rc)) // a nil reader has nothing to close
 				for _, ne := range nilE {
 					for _, ret := range Returns(F) {
-						if reach(ne.To, 0, ret, newCut().Instr(closes...)) {
+						if reach(ne.To, 0, ret, newCut().Instr(closes...).Edges(rcNil...)) {
 							okClose = false
 						}
 					}
